@@ -142,6 +142,18 @@ class Clause:
         return self.quick if tier == "quick" else self.thorough
 
 
+def _ambient():
+    """Process-wide settings a caller may legitimately have changed before calling persim (quantified over like the hash seed):
+    every second shard runs with NumPy's floating-point error handling set to 'ignore' instead of the default 'warn'.
+    Neither setting may change a value or an exception. ('raise', and a warnings filter of "error", are not used: turning the
+    floating-point events and warnings that the documented behaviour includes into exceptions is the caller's own request.)"""
+    import contextlib
+    if os.environ.get("PV_AMBIENT") == "errstate_ignore":
+        import numpy as np
+        return np.errstate(all="ignore")
+    return contextlib.nullcontext()
+
+
 def run_case(clause, case):
     """Plain execution of one case -> dict(outcome, sig, msg, labels, nontrivial).
 
@@ -151,7 +163,7 @@ def run_case(clause, case):
     import contextlib
     import io
     try:
-        with contextlib.redirect_stdout(io.StringIO()):   # persim prints notices ("Bad choice of grid ...")
+        with contextlib.redirect_stdout(io.StringIO()), _ambient():   # persim prints notices ("Bad choice of grid ...")
             clause.check(case, ctx)
     except CaseTimeout:
         # raised by the watchdog inside Ctx.call, i.e. while the CODE UNDER TEST was running (never while an oracle runs):
